@@ -120,7 +120,7 @@ func Verif_C47_EncodeT() { c47Encode(24, -2, 40) }
 // always, output only when the last fragment arrives in sequence and then equal to the original
 // encoding; a subsequent in-order delivery always reassembles the original.
 func Verif_C47_Reorder() {
-	msg := verifrt.Bytes(16)
+	msg := append(verifrt.Bytes(3), []byte("0123456789abc")...) // 3 symbolic + 13 fixed bytes
 	c := &Conversation{FragmentSize: 29}
 	frags := c.encode(msg)
 	want := c47Expected(msg)
@@ -170,6 +170,45 @@ func Verif_C47_FragmentBytes() { c47FragmentBytes(5) }
 // Verif_C47_FragmentBytesT: up to 8 symbolic bytes.
 func Verif_C47_FragmentBytesT() { c47FragmentBytes(8) }
 
+// c47Num: reference reading of a decimal field as strconv.Atoi accepts it (optional sign, at
+// least one digit, digits only; at most 8 digits here, so no overflow).
+func c47Num(b []byte) (v int, ok bool) {
+	neg := false
+	if len(b) > 0 && (b[0] == '+' || b[0] == '-') {
+		neg = b[0] == '-'
+		b = b[1:]
+	}
+	if len(b) == 0 {
+		return 0, false
+	}
+	for _, ch := range b {
+		if ch < '0' || ch > '9' {
+			return 0, false
+		}
+		v = v*10 + int(ch-'0')
+	}
+	if neg {
+		v = -v
+	}
+	return v, true
+}
+
+// c47WellFormed: "k,n,piece," with exactly three commas, the last byte a comma, 1 <= k <= n.
+func c47WellFormed(in []byte) bool {
+	var pos []int
+	for i, ch := range in {
+		if ch == ',' {
+			pos = append(pos, i)
+		}
+	}
+	if len(pos) != 3 || pos[2] != len(in)-1 {
+		return false
+	}
+	k, ok1 := c47Num(in[:pos[0]])
+	n, ok2 := c47Num(in[pos[0]+1 : pos[1]])
+	return ok1 && ok2 && k >= 1 && n >= 1 && k <= n
+}
+
 func c47FragmentBytes(maxLen int) {
 	n := verifrt.Choose(0, maxLen)
 	in := append([]byte("?OTR,"), verifrt.Bytes(n)...)
@@ -183,6 +222,7 @@ func c47FragmentBytes(maxLen int) {
 	var err error
 	p := verifrt.Panics(func() { out, err = c.processFragment(in) })
 	verifrt.Assert(!p, "processFragment does not panic")
+	verifrt.Assert((err == nil) == c47WellFormed(in[len("?OTR,"):]), "processFragment: error iff the fragment header is malformed")
 	if err != nil {
 		verifrt.Reach("fragment-error")
 		verifrt.Assert(out == nil, "error => no output")
